@@ -24,6 +24,7 @@ import (
 	"github.com/hashicorp/consul/acl"
 	"github.com/hashicorp/consul/agent/consul/state"
 	"github.com/hashicorp/consul/agent/structs"
+	"github.com/hashicorp/consul/api"
 	"github.com/hashicorp/consul/proto-public/pbresource"
 	"github.com/hashicorp/consul/proto/private/pbpeering"
 	"github.com/hashicorp/consul/proto/private/pbstorage"
@@ -32,7 +33,7 @@ import (
 
 // FCfg weights the command families of a log.
 type FCfg struct {
-	Base, ACL, Intention, CA, Autopilot, FedState, FeatureGate, Peering, ManualVIP, DeprecatedACL, Resource, SysMeta, TxnExtra, ConfigExtra, BoundSession int
+	Base, ACL, Intention, CA, Autopilot, FedState, FeatureGate, Peering, ManualVIP, DeprecatedACL, Resource, SysMeta, TxnExtra, ConfigExtra, BoundSession, LockDelay int
 	BaseCfg                                                                                                                 *Cfg
 }
 
@@ -53,6 +54,8 @@ func (c *FCfg) Focused(focus string) *FCfg {
 		out.CA *= 5
 	case "catalog":
 		out.Base *= 3
+	case "lockdelay":
+		out.LockDelay *= 14
 	case "session": // sessions bound to checks, and the ways such sessions end (check turns critical / is deleted, node goes away …)
 		b := *c.BaseCfg
 		b.Session, b.Killer, b.KV, b.Catalog = 22, 24, 22, 30
@@ -63,12 +66,12 @@ func (c *FCfg) Focused(focus string) *FCfg {
 }
 
 // Focuses lists the focus names ("" = the plain mix).
-var Focuses = []string{"", "", "vip", "vip", "acl", "peering", "intention", "ca", "catalog", "session"}
+var Focuses = []string{"", "", "vip", "vip", "acl", "peering", "intention", "ca", "catalog", "session", "lockdelay", "lockdelay"}
 
 // DefaultFCfg is the mix used by C01 and C02.
 func DefaultFCfg() *FCfg {
 	return &FCfg{
-		Base: 46, ACL: 15, Intention: 7, CA: 6, Autopilot: 2, FedState: 3, FeatureGate: 2, Peering: 8, ManualVIP: 6, DeprecatedACL: 1, Resource: 3, SysMeta: 3, TxnExtra: 2, ConfigExtra: 4, BoundSession: 3,
+		Base: 46, ACL: 15, Intention: 7, CA: 6, Autopilot: 2, FedState: 3, FeatureGate: 2, Peering: 8, ManualVIP: 6, DeprecatedACL: 1, Resource: 3, SysMeta: 3, TxnExtra: 2, ConfigExtra: 4, BoundSession: 3, LockDelay: 3,
 		BaseCfg: &Cfg{KV: 22, Session: 8, Reap: 2, Catalog: 28, Dereg: 8, Txn: 10, PQ: 4, Config: 12, Coord: 3, SysMeta: 2, Killer: 3,
 			TxnCatalog: true, Peers: true, Connect: true, Rename: true, SessionChecks: true, MaxTxnOps: 4},
 	}
@@ -81,6 +84,7 @@ type FWorld struct {
 	Clock    time.Time      // leader clock used for stamps carried in commands
 	minted   map[string]int // per-class counters of minted UUIDs
 	Resource func() []*pbresource.Resource
+	delayed  []string // keys force-released from a session that carried a lock-delay (generator aim only)
 }
 
 // NewFWorld wraps a store getter result. The store handle must be refreshed by the caller if the FSM swaps it.
@@ -127,6 +131,7 @@ func (w *FWorld) DrawCmd(t *rapid.T, cfg *FCfg) *FCmd {
 		{cfg.TxnExtra, func() *FCmd { return w.DrawTxnExtra(t) }},
 		{cfg.ConfigExtra, func() *FCmd { return w.DrawConfigExtra(t) }},
 		{cfg.BoundSession, func() *FCmd { return w.DrawBoundSession(t) }},
+		{cfg.LockDelay, func() *FCmd { return w.DrawLockDelay(t) }},
 	}
 	total := 0
 	for _, f := range fams {
@@ -1544,4 +1549,83 @@ func (w *FWorld) DrawReap(t *rapid.T) *FCmd {
 	c := NewFCmd("acl/token-delete", "acl", structs.ACLTokenDeleteRequestType, w.NextIdx(t), &structs.ACLTokenBatchDeleteRequest{TokenIDs: ids}, "token-reap "+shortAll(ids))
 	c.RMW, c.Multi = true, len(ids) > 1
 	return c
+}
+
+
+// DrawLockDelay drives the lock-delay shape step by step: a session with LockDelay > 0 takes a lock; that session is
+// ended (destroy or node deregistration) so the key is released forcefully (or deleted); a few entries later another
+// session locks the same key. The lock-delay itself is leader-side, wall-clock state: what a replica answers to the
+// committed lock must not depend on it.
+func (w *FWorld) DrawLockDelay(t *rapid.T) *FCmd {
+	_, sessions, _ := w.Store.SessionList(nil, nil)
+	_, ents, _ := w.Store.KVSList(nil, "", nil)
+	holder := map[string]string{}
+	for _, e := range ents {
+		if e.Session != "" {
+			holder[e.Session] = e.Key
+		}
+	}
+	var delaySess, delayHolding, others []*structs.Session
+	for _, s := range sessions {
+		if s.LockDelay > 0 {
+			delaySess = append(delaySess, s)
+			if holder[s.ID] != "" {
+				delayHolding = append(delayHolding, s)
+			}
+		}
+		others = append(others, s)
+	}
+	mkSession := func(delay time.Duration) *FCmd {
+		nodes := w.LiveNodes("")
+		if len(nodes) == 0 {
+			node := pick(t, "ldnode", Nodes)
+			reg := &structs.RegisterRequest{Datacenter: fsmDC, Node: node, ID: NodeIDs[node], Address: "10.0.0." + node[1:], EnterpriseMeta: defaultEM}
+			c, _ := FromOp(NewRegister(w.NextIdx(t), reg))
+			return c
+		}
+		id, ok := w.freshSessionID(t)
+		if !ok {
+			return nil
+		}
+		w.SessUsed[id] = true
+		sess := &structs.Session{ID: id, Node: pick(t, "ldsessnode", nodes).Node, LockDelay: delay, Behavior: pick(t, "ldbehavior", []structs.SessionBehavior{structs.SessionKeysRelease, structs.SessionKeysRelease, structs.SessionKeysDelete}), EnterpriseMeta: defaultEM}
+		c, _ := FromOp(NewSessCreate(w.NextIdx(t), sess))
+		return c
+	}
+	// step 3: another session locks a key that was force-released under a lock-delay
+	if len(w.delayed) > 0 && chance(t, "ldrelock", 75) {
+		key := w.delayed[0]
+		if len(others) == 0 {
+			return mkSession(0)
+		}
+		w.delayed = w.delayed[1:]
+		s := pick(t, "ldrelocker", others)
+		if chance(t, "ldviatxn", 25) {
+			c, err := FromOp(NewTxn(w.NextIdx(t), structs.TxnOps{&structs.TxnOp{KV: &structs.TxnKVOp{Verb: api.KVLock, DirEnt: structs.DirEntry{Key: key, Value: []byte("relock"), Session: s.ID, EnterpriseMeta: defaultEM}}}}))
+			if err == nil {
+				return c
+			}
+		}
+		c, _ := FromOp(NewKV(KVLock, w.NextIdx(t), key, []byte("relock"), 0, 0, s.ID))
+		return c
+	}
+	// step 2: end a lock-delay session that holds a key
+	if len(delayHolding) > 0 && chance(t, "ldend", 70) {
+		s := pick(t, "ldvictim", delayHolding)
+		w.delayed = append(w.delayed, holder[s.ID])
+		if chance(t, "ldendbynode", 30) {
+			c, _ := FromOp(NewDereg(DeregNode, w.NextIdx(t), s.Node, "", ""))
+			return c
+		}
+		c, _ := FromOp(NewSessDestroy(w.NextIdx(t), s.ID))
+		return c
+	}
+	// step 1: a lock-delay session takes a lock
+	if len(delaySess) > 0 {
+		s := pick(t, "ldlocker", delaySess)
+		key := pick(t, "ldkey", Keys)
+		c, _ := FromOp(NewKV(KVLock, w.NextIdx(t), key, []byte("held"), 0, 0, s.ID))
+		return c
+	}
+	return mkSession(pick(t, "lddelay", []time.Duration{15 * time.Second, 15 * time.Second, time.Second, 60 * time.Second}))
 }
